@@ -98,6 +98,20 @@ func main() {
 		if bad > 0 {
 			os.Exit(1)
 		}
+	case "mutate":
+		// mixvet mutate <ID> [jobs] [func-substr]: mutation sweep of the checker (development aid)
+		jobs := 6
+		if len(os.Args) > 3 {
+			fmt.Sscan(os.Args[3], &jobs)
+		}
+		only := ""
+		if len(os.Args) > 4 {
+			only = os.Args[4]
+		}
+		if err := mutateSweep(os.Args[2], jobs, only); err != nil {
+			fmt.Fprintln(os.Stderr, err)
+			os.Exit(2)
+		}
 	case "check":
 		if len(os.Args) < 3 {
 			usage()
